@@ -39,6 +39,11 @@ CHECKS['C07'] = dict(engine='CH', category='model_checking', design='4/C07',
    text='For every string value up to the bound (any code point) the literal produced by each real output path is exactly one literal of the target whose reading is the value (so it cannot terminate early): MySQL reader for mysql, standard SQL reader for the other six names, mindsdb-dialect reader for the tree\'s own string. The value class the mindsdb dialect cannot express (odd back-slash run before a quote/end) is checked separately and reported as a KNOWN-FINDING while it fails. A concrete wiring check confirms that constants in select list / WHERE / IN / INSERT values / UPDATE SET route through the checked unit for every dialect.',
    note='Trusted: CrossHair str model, reference readers (refs/readers.py), SQLAlchemy for non-string literals and labels, CPython number formatting. Bounds: value length <= 4 (quick) / 6 (thorough). Postgres fallback path is C17\'s.')
 
+CHECKS['C16'] = dict(engine='CH', category='model_checking', design='4/C16',
+   technique='CrossHair symbolic execution (z3) of the real tokens_to_string over tokens produced by the real lexer actions from a symbolic lexeme; CrossHair path-splitting over layout geometry with native leaves through the real lexer; concrete wiring check per embedding command',
+   text='For every lexeme up to the bound of each value-carrying token kind (single/double quoted strings with escapes, @/@@ variables in all quoting forms, identifiers, numbers) the text rebuilt by tokens_to_string is exactly the source text; for 11 concrete tricky lexemes every layout (gaps 0..2, line breaks, block and line comments on either side) is rebuilt equal up to whitespace/comments and re-tokenises to the same values; each of the 11 embedding commands stores an inner query that equals the source up to whitespace/comments and parses to the same tree.',
+   note='Trusted: CrossHair str model; STUB: Lexeme(str subclass) modelled as a plain holder with .raw inside the symbolic content harnesses (real class in layout leaves and wiring). Bounds: lexeme <= 4 (quick) / 6 (thorough) chars.')
+
 NA_PENDING = {}
 
 
